@@ -358,6 +358,22 @@ def main():
                                'message': ('unit %s could not be extracted (code restructured); its bounded replay oracle found a failing input on the real code' % u) if u in undecided_units else ('bounded replay oracle of unit %s found a failing input on the real code' % u),
                                'clause': (fails[0] if fails else '')[:300], 'source': orc['target'], 'rendered': info[-3000:], 'oracle_found': True})
 
+    # property-level end-to-end oracles (bounded safety net for glue code no unit has under contract)
+    for orc in P.get('prop_oracles', []):
+        if args.only or (tier != 'thorough' and not orc.get('quick')):
+            continue
+        ok, info = run_oracle(orc, args.repo)
+        fails = [l for l in info.split('\n') if 'FAILING INPUT' in l][:5]
+        ran = re.findall(r'test result: ok\. (\d+) passed', info)
+        oracle_standins.append({'unit': None, 'oracle': orc['file'], 'kind': 'bounded', 'role': 'end-to-end safety net (glue code not under contract)',
+                                'tests_passed': int(ran[0]) if ran else 0, 'failing_input_found': ok, 'failing_inputs': fails})
+        if not ok and not ran:
+            undecided.append('oracle %s did not run: %s' % (orc['file'], info[-300:].replace('\n', ' | ')))
+        if ok:
+            violations.append({'obligation': 'bounded-oracle::%s' % os.path.basename(orc['file']), 'unit': None, 'function': None, 'kind': 'bounded-oracle',
+                               'message': 'end-to-end bounded oracle found a failing input on the real code',
+                               'clause': (fails[0] if fails else '')[:300], 'source': orc['target'], 'rendered': info[-3000:], 'oracle_found': True})
+
     wall = time.time() - t_start
     # ---------------------------------------------------------------- verdict
     rc = 0
@@ -517,6 +533,8 @@ def run_oracle(orc, repo):
         env['CARGO_NET_OFFLINE'] = 'true'
         env['CARGO_TARGET_DIR'] = os.path.join(VERIF, 'work', 'oracle-target')
         env['VERIF_SEED'] = os.environ.get('VERIF_SEED', '0')
+        for k, v in orc.get('env', {}).items():
+            env[k] = v
         p = subprocess.run(['cargo', 'test', '--offline', '-p', orc.get('package', 'sudachi'), '--lib', 'verif_oracle', '--', '--nocapture'],
                            cwd=scratch, env=env, capture_output=True, text=True, timeout=1200)
         out = p.stdout + p.stderr
